@@ -29,9 +29,6 @@ Core Lean only.
 namespace PebblesVerif.Model.Introspect
 open PebblesVerif
 
-/-- `common.IsBuiltinName` -/
-def isBuiltinName (s : String) : Bool := s.startsWith "__"
-
 /-- `hasDeprecatedDirective`: `(true, &reason)` with `reason = ""` when the argument is absent,
     `(false, nil)` otherwise -/
 def hasDeprecated (ds : List DirUse) : Bool × J :=
